@@ -254,7 +254,7 @@ def run (f : List String) : Option String :=
       | .error _ => "panic"
       | .ok (w, _) => "ok " ++ hex w)
   | ["encbig", _, m] => do
-    -- what is appended does not depend on what the writer holds (C09.encodeInto_append): the value alone
+    -- what is appended does not depend on what the writer holds (C09.behind_zeros): the value alone
     let m ← parseMsg m
     some (match runMsgL [] m with
       | .error _ => "panic"
@@ -265,7 +265,7 @@ def run (f : List String) : Option String :=
       | .error _ => "panic"
       | .ok (w, _) => "ok tail=" ++ hex w ++ " clean=1")
   | ["sfxbig", o, b, size] => do
-    -- a declared length in front of `size - consumed` more octets: by C08.suffix_irrelevant the answer is the one
+    -- a declared length in front of `size - consumed` more octets: by C08.in_front_of_zeros the answer is the one
     -- for the image alone, with everything behind the declared end left over (the octets themselves are never built)
     let o ← parseOpts o
     let b ← unhex b
